@@ -14,6 +14,7 @@ import (
 	"go/types"
 
 	"crverif/internal/an"
+	"crverif/internal/load"
 
 	"golang.org/x/tools/go/ssa"
 )
@@ -464,6 +465,22 @@ func lastIs(r rejection, pred func(an.PathAtom) bool) bool {
 	return false
 }
 
+// rejectRule/rejectOnly let another property share selected rejection obligations.
+var (
+	rejectRule = "R-C02-2"
+	rejectOnly map[string]bool
+)
+
+// sharedRejections evaluates the listed rejection obligations of package config under another rule id.
+func sharedRejections(c *Ctx, rule string, ids ...string) {
+	rejectRule, rejectOnly = rule, map[string]bool{}
+	for _, id := range ids {
+		rejectOnly[id] = true
+	}
+	defer func() { rejectRule, rejectOnly = "R-C02-2", nil }()
+	c02Reject(c)
+}
+
 func c02Reject(c *Ctx) {
 	fnames := []string{"Parse", "parseInterfaces", "parseInterface", "parsePreference", "parseIPPrefix", "parsePrefix", "parseRoute", "parsePlugins", "parseRDNSS", "parseDNSSL"}
 	rej := map[string][]rejection{}
@@ -680,6 +697,9 @@ func c02Reject(c *Ctx) {
 		}},
 	}
 	for _, ob := range obs {
+		if rejectOnly != nil && !rejectOnly[ob.id] {
+			continue
+		}
 		found := false
 		for _, r := range rej[ob.fn] {
 			if ob.match(r) {
@@ -691,8 +711,11 @@ func c02Reject(c *Ctx) {
 		if f := c.P.Func("internal/config", ob.fn); f != nil {
 			at = c.pos(f.Pos())
 		}
-		c.R.Check(found, "R-C02-2", "config."+ob.fn+":rejects:"+ob.id, "config."+ob.fn, at, fmt.Sprintf("error return decided by this condition found: %v (%d error paths examined)", found, len(rej[ob.fn])),
+		c.R.Check(found, rejectRule, "config."+ob.fn+":rejects:"+ob.id, "config."+ob.fn, at, fmt.Sprintf("error return decided by this condition found: %v (%d error paths examined)", found, len(rej[ob.fn])),
 			"documented constraint: "+ob.doc, "a configuration violating this documented constraint is accepted")
+	}
+	if rejectOnly != nil {
+		return
 	}
 	// parsePrefix: deprecated with infinite VALID lifetime too (two disjuncts)
 	if rs, ok := rej["parsePrefix"]; ok {
@@ -1218,6 +1241,8 @@ func boundedIndex(fn *ssa.Function, x *ssa.IndexAddr) bool {
 	return true
 }
 
+var errDiscSeen = map[*ssa.Function]bool{}
+
 // errorDiscipline checks, for every call in f that returns an error: the error
 // is tested (or handed straight to the caller), and on every path where it is
 // non-nil f returns a non-nil error (it is not swallowed). Returns the number
@@ -1225,6 +1250,16 @@ func boundedIndex(fn *ssa.Function, x *ssa.IndexAddr) bool {
 func errorDiscipline(c *Ctx, rule string, f *ssa.Function, label, oracle, bad string) int {
 	n := label
 	nErr := 0
+	// helpers introduced below f obey the same discipline
+	for _, ci := range an.CallsIn(f) {
+		if callee := an.StaticCallee(ci.Common()); callee != nil && callee != f && callee.Blocks != nil && callee.Parent() == nil && load.InModule(callee) && !anchorFuncs[c.fname(callee)] && !errDiscSeen[callee] {
+			errDiscSeen[callee] = true
+			nErr += errorDiscipline(c, rule, callee, c.fname(callee), oracle, bad)
+		}
+	}
+	for _, finding := range c.shadowedErrorResults(f) {
+		c.R.Fail(rule, n+":shadowed-error-result", n, c.pos(f.Pos()), finding, oracle, bad)
+	}
 	ps, _ := c.XO.Paths(f, an.PathOpts{MaxPaths: 400000, EmitCut: true, InlinePaths: c.helperInline(f)})
 	type st struct{ tested, swallowed bool }
 	sites := map[ssa.Value]*st{}
